@@ -171,16 +171,21 @@ def shape_of(doc):
     return " ".join(parts)
 
 
-def compare(doc, uri, next_free, prop, M, case):
+def compare(doc, uri, next_free, prop, M, case, compiler=None):
     """Compile `doc` (ids already assigned, next free id known) with the real compiler and
-    with R4; report differences of the field group of `prop`; others are advisory."""
+    with R4; report differences of the field group of `prop`; others are advisory.
+    With `compiler` given, that (reused) Compiler object is used and the expected pickle ids
+    continue from its own generator."""
     doc = dict(doc)
     doc["uri"] = uri
     before = copy.deepcopy(doc)
+    if compiler is not None:
+        next_free = int(compiler.id_generator.get_next_id()) + 1
+        M.count("compiles_on_reused_compiler")
     want = refcompile.ref_compile(doc, uri, refcompile.counter_from(next_free))
     M.count("compile_calls")
     try:
-        got = Compiler(generator_at(next_free)).compile(doc)
+        got = (compiler or Compiler(generator_at(next_free))).compile(doc)
     except Exception as e:
         origin = observe._origin(e)
         mech = D1 if (type(e).__name__ == "error" and origin.endswith("_interpolate")) else None
